@@ -5,6 +5,8 @@
 package auth
 
 import (
+	"crypto/rand"
+	"encoding/hex"
 	"sync"
 	"time"
 
@@ -25,13 +27,23 @@ type TokenManager struct {
 	tokens sync.Map // token->Token
 }
 
+// newTokenString 生成不可预测的令牌字串。
+// 不能由进程内递增计数器派生：计数器的值会通过 RTSP Session 头等途径泄露给未认证的客户端。
+func newTokenString() string {
+	var b [16]byte
+	if _, err := rand.Read(b[:]); err != nil {
+		return security.NewID().MD5()
+	}
+	return hex.EncodeToString(b[:])
+}
+
 // NewToken 给用户新建Token
 func (tm *TokenManager) NewToken(username string) *Token {
 	token := &Token{
 		Username: username,
-		AToken:   security.NewID().MD5(),
+		AToken:   newTokenString(),
 		AExp:     time.Now().Add(time.Hour * time.Duration(2)).Unix(),
-		RToken:   security.NewID().MD5(),
+		RToken:   newTokenString(),
 		RExp:     time.Now().Add(time.Hour * time.Duration(7*24)).Unix(),
 	}
 
